@@ -65,6 +65,11 @@ CLAIMED = {
   ref="DESIGN.md §6 C04",
   note="Partial: f32 inputs (R32*_FLOAT to U8/U16) and the BT.601 YUV matrices are modelled and compared on boundary and random inputs but have no rounding theorem; the IEEE model is validated by differential execution, not derived from Flocq. Found and repaired F10 (XR bias F32 one ULP off) and F12 (R9G9B9E5 to U16 off by one); F11 (half codes 0x3801-0x3804 to U16 off by one) is a known finding with a refutation lemma.",
   tech="Coq proof (exhaustive finite sweeps by vm_compute lifted by lemma, executable IEEE-754 model) + differential execution + exact-arithmetic oracle"),
+ "C05": dict(
+  text="Coq theorems about what the property means: the documented channel mapping is coherent (every conversion equals the conversion through RGBA; identity is the identity; lengths), a rectangle is the corresponding crop (pixel (i,j) of the rect at (x,y) is pixel (x+i,y+j); crops compose), per-pixel conversions commute with cropping, placing rows in a buffer with a row pitch leaves every byte outside the addressed rows unchanged and makes the addressed bytes independent of the previous contents, and in a block format a pixel depends only on the bytes of its own block. The implementation (decode_rect and decode for all 73 formats x 12 colour formats x rectangles x pitches x offsets x prefills) is compared byte for byte with blit(prefill, crop(rect, map chmap (native full decode))).",
+  ref="DESIGN.md §6 C05",
+  note="Partial: the rectangle code paths of src/decode/read_write.rs (skip arithmetic, block ranges, width offsets, the 3072-byte conversion buffer) are not modelled line by line; they are compared against the specification-level model on generated inputs. The native-layout full decode is the reference image (verified by C03/C04 for the modelled formats, taken as is for BC6H/ASTC).",
+  tech="Coq proof (list lemmas, induction over rows) + differential execution against the specification-level model"),
  "C19": dict(
   text="Coq theorems over the implementation's regenerated tables: for every header from which a format is detected (all valid DXGI codes x alpha modes incl. the premultiplied special cases, every FourCC, every mask pixel format; all other fields symbolic) the pixel layout derived from the header equals the pixel layout of the detected format, so layouts computed with or without a decoder coincide; every implemented format's pixel layout is within the bounds the layout/script theorems assume; size multiples are advertised exactly for the bi-planar formats and equal their sub-sampling; advertised bits per pixel are exact for fixed-size pixels and an upper bound per whole block otherwise. Observed behaviour is tied to the tables by differential execution: header detection sweep here, bytes consumed by decoding in C06, sizes accepted by encoding in C10. The dithering clauses are checked by an implementation-only oracle over all encodable formats.",
   ref="DESIGN.md §6 C19",
